@@ -19,6 +19,9 @@ LEAVES = [
      "py": {"k": "prim", "name": "C", "params": {"c": "1e-3"}}},
     {"k": "leaf", "kind": "hdl21.primitives.Mos", "ports": [{"n": "d", "w": 1}, {"n": "g", "w": 1}, {"n": "s", "w": 1}, {"n": "b", "w": 1}],
      "params": [["tp", "L:NMOS"], ["vth", "L:STD"], ["family", "L:NONE"]], "py": {"k": "prim", "name": "Mos", "params": {}}},
+    # parameters at "falsy" values are parameters all the same (only None is left out)
+    {"k": "leaf", "kind": ".E3", "ports": [{"n": "p", "w": 1}, {"n": "q", "w": 1}], "params": [["m", "I:0"], ["x", "F:0x0.0p+0"], ["tag", "L:"], ["en", "I:0"]],
+     "py": {"k": "ext", "name": "E3", "params": {"m": 0, "x": 0.0, "tag": "", "en": False, "k": None}}},
 ]
 DIFF = {"name": "Diff", "tree": {"sigs": [{"n": "p", "w": 1, "port": False, "dir": "none", "src": None, "dest": None, "kind": "plain"},
                                           {"n": "n", "w": 1, "port": False, "dir": "none", "src": None, "dest": None, "kind": "plain"}], "subs": []}}
@@ -95,6 +98,10 @@ class ModGen:
                     if leaves:
                         return {"k": "bref", "root": b["n"], "path": self.rng.choice(leaves)[0]}
         if r < 0.30 or depth == 0:
+            if r < 0.05 and o.get("slices", True):
+                # a slice as wide as the signal it is taken from — for a one-bit signal: s[0], s[-1], s[0:1], s[:] — next to whole uses of it
+                idx = self.rng.choice([{"s": 0, "e": w, "st": None}, {"s": None, "e": None, "st": None}] + ([{"i": 0}, {"i": -1}] if w == 1 else [{"s": -w, "e": None, "st": None}]))
+                return {"k": "slice", "p": {"k": "sig", "n": self.some_sig(w)}, "i": idx}
             return {"k": "sig", "n": self.some_sig(w)}
         if r < 0.50:
             big = self.some_sig(w, exact=False)
